@@ -93,9 +93,12 @@ CLAIMED.update({
               "the whole u64 range, and lemmas from that contract alone: monotone in b, additive within 1 ps per term, translation "
               "invariant. Kani (complete): the enum-level dispatch passes (later, earlier, frequency) through unchanged, <FineDuration as "
               "From<Duration>> is nanos*1000 for every Duration, derived Default is 0; the same floor formula on compiled code full-range "
-              "(thorough tier, ~9 min) and within a 2^16 window (quick tier, bounded, counterexample source)."),
-        note=("Precision-equals-step (Timer::measure_precision) and the Os timer arm (std Instant) are undecided. One trusted spec (derived "
-              "Default) is Kani-checked."),
+              "(thorough tier, ~9 min) and within a 2^16 window (quick tier, bounded, counterexample source). Verus also proves on the real "
+              "Timer::measure_precision (the clock sample - untagged timestamps, delay loop, unsafe into_timestamp - pinned and replaced by an "
+              "uninterpreted take_sample): whatever the clock does, the value returned is the least non-zero sample observed during the call and was "
+              "itself observed, hence a positive multiple of the step of a uniform-step clock (partial correctness)."),
+        note=("That a sample spanning exactly one clock step is observed (so that the precision EQUALS the step), termination of measure_precision, "
+              "and the Os timer arm (std Instant) are undecided. Trusted specs (derived Default, derived Ord, MAX, is_zero) are Kani-checked."),
         technique="Verus contract + arithmetic lemmas on extracted code; Kani complete harnesses",
         design_ref="5 C11"),
     "C13": dict(
